@@ -7,6 +7,9 @@ mod world;
 use explore::*;
 use world::*;
 
+// Under Miri (secondary oracle, `mirisweep`) the interpreter's own allocator is used: it sees
+// out-of-bounds and dangling *reads*, which the oracle allocator cannot.
+#[cfg(not(miri))]
 #[global_allocator]
 static ALLOC: oracle::Oracle = oracle::Oracle;
 
@@ -88,6 +91,59 @@ fn main() {
             }
             rep.extra.push(("wall_s".into(), format!("{:.3}", t0.elapsed().as_secs_f64())));
             rep.print();
+        }
+        "mirisweep" => {
+            // every enabled operation (incl. out-of-contract and usize::MAX-class arguments) applied to every
+            // history of `depth` operations after the root, no deduplication; model comparison only.
+            // Meant to run under `cargo +nightly miri run`, works natively too.
+            let root: Vec<usize> = arg("--root", "2,4").split(',').map(|x| x.parse().unwrap()).collect();
+            let depth: usize = arg("--depth", "1").parse().unwrap();
+            let shard: Vec<usize> = arg("--shard", "0/1").split('/').map(|x| x.parse().unwrap()).collect();
+            let cfg = Cfg { root: (root[0], root[1]), parity_odd: false, depth, maxh: 3, max_roots: 2, alphabet: alphabet_named("full"), ooc: true, huge: true, perms: false, probes: false, oom_probes: false, oom_probe_depth: 0, dedup: false, shard: (0, 1), max_states: 0, property: "C02".into() };
+            let mut frontier: Vec<Vec<Op>> = vec![vec![Op::new(K::Root, 0, 0, root[0], root[1])]];
+            let mut execs = 0u64;
+            let mut mism = 0u64;
+            let mut idx = 0usize;
+            for d in 0..=depth {
+                let mut next = vec![];
+                for hist in &frontier {
+                    let mut w = World::new();
+                    w.check = false;
+                    for op in hist {
+                        w.step(*op);
+                    }
+                    let acts = enabled(&w, &cfg);
+                    let live: Vec<usize> = (0..MAXH).filter(|&i| w.slots[i].is_some()).collect();
+                    w.drop_all(&live);
+                    for a in acts {
+                        idx += 1;
+                        let mut h2 = hist.clone();
+                        h2.push(a);
+                        if d < depth {
+                            next.push(h2.clone());
+                        }
+                        if idx % shard[1] != shard[0] {
+                            continue;
+                        }
+                        execs += 1;
+                        let mut w = World::new();
+                        w.check = false;
+                        for op in &h2 {
+                            w.step(*op);
+                        }
+                        for sl in w.slots.iter().flatten() {
+                            if sl.h.bytes() != &sl.model[..] {
+                                mism += 1;
+                                println!("MISMATCH {}", hist_json(&h2));
+                            }
+                        }
+                        let live: Vec<usize> = (0..MAXH).filter(|&i| w.slots[i].is_some()).collect();
+                        w.drop_all(&live);
+                    }
+                }
+                frontier = next;
+            }
+            println!("MIRISWEEP root={} depth={} executions={} mismatches={}", root_name(root[0]), depth, execs, mism);
         }
         "digest" => {
             let root: Vec<usize> = arg("--root", "2,4").split(',').map(|x| x.parse().unwrap()).collect();
